@@ -42,7 +42,7 @@ def run(model, col, tier):
     sel = []
     for name, val in ops.items():
         try:
-            if ev(rets[0], {f"{pname}.value": val}):
+            if ev(rets[0], {f"{pname}.value": val, **{f"Operation.{n_}.value": v_ for n_, v_ in ops.items()}}):
                 sel.append(name)
         except CannotEval as e:
             raise AnalysisError(f"{OP}::IsComparison cannot be folded: {e}")
